@@ -220,4 +220,522 @@ theorem eofToOverrun_tri {α : Type} {K : List String} {hang : Bool} {B : Nat} {
     · intro _ h'; cases h'
   · exact h
 
+/-! ### category walk -/
+
+/-- What one loop iteration guarantees about its result. -/
+def CatStepPost (m : Mode) (wa : Nat) : CatStep → Prop
+  | .done (some r) => r.WF
+  | .done none => True
+  | .next wa' ne' => wa' < 65536 ∧ ne' < 32 ∧ (m = .checked → wa + 2 ≤ wa')
+
+theorem catStep_tri (m : Mode) (hang : Bool) (cat : Nat) (chunk : List Nat) (wa ne : Nat)
+    (_hne : ne < 32) (hch : 4 ≤ chunk.length) :
+    Tri (sites m) hang 0 (CatStepPost m wa) (catStep m cat chunk wa ne) := by
+  unfold catStep
+  by_cases h1 : wa + 2 ≥ 65536
+  · rw [if_pos h1]; exact Tri.ret 0 (show CatStepPost m wa (.done none) from trivial)
+  · rw [if_neg h1, if_neg (by omega : ¬ chunk.length < 4)]
+    generalize hdef : (if rd16 (chunk.drop 2) = 0 then ne + 1 else ne) = ne'
+    have hle : ne' ≤ ne + 1 := by rw [← hdef]; split <;> omega
+    by_cases h2 : ne' ≥ Gen.Eeprom.EMPTY_CATEGORY_LIMIT
+    · simp only [hdef, if_pos h2]; exact Tri.ret 0 (show CatStepPost m wa (.done none) from trivial)
+    · simp only [hdef, if_neg h2]
+      have hne' : ne' < 32 := by simp only [Gen.Eeprom.EMPTY_CATEGORY_LIMIT] at h2; omega
+      refine (Tri.bind (mul16_tri m hang "category:mul" (by decide) (wa + 2) 2) (B2 := 0) ?_)
+      intro _ _
+      by_cases h3 : catOf (rd16 chunk) = cat
+      · rw [if_pos h3]
+        refine (Tri.bind (new_tri m hang (wa + 2) _) (B2 := 0) ?_)
+        intro r hr
+        exact Tri.ret 0 (show CatStepPost m wa (.done (some r)) from hr.1)
+      · rw [if_neg h3]
+        by_cases h4 : catOf (rd16 chunk) = Gen.Eeprom.CAT_END
+        · rw [if_pos h4]; exact Tri.ret 0 (show CatStepPost m wa (.done none) from trivial)
+        · rw [if_neg h4]
+          refine (Tri.bind (add16_tri m hang "category:add" (by decide) (wa + 2) _) (B2 := 0) ?_)
+          intro wa'' hwa''
+          refine Tri.ret 0 (show CatStepPost m wa (.next wa'' ne') from ⟨hwa''.1, hne', fun hm => ?_⟩)
+          have := hwa''.2 hm
+          omega
+
+/-- Overflow-checked builds: the word address grows by at least 2 per iteration, so the walk ends after at
+    most `(65536 − wa) / 2 + 1` provider calls — it never runs out of fuel. -/
+theorem catLoop_checked (p : Prov) (hcs : 4 ≤ p.cs) (cat : Nat) :
+    ∀ (fuel wa ne calls : Nat), wa < 65536 → ne < 32 → 65536 - wa < 2 * fuel →
+      Tri knownSites false (calls + (65536 - wa) / 2 + 1) (fun r => ∀ x, r = some x → x.WF)
+        (catLoop .checked p cat fuel wa ne calls) := by
+  intro fuel
+  induction fuel with
+  | zero => intro wa ne calls h1 _ h3; omega
+  | succ fuel ih =>
+    intro wa ne calls hwa hne hfuel
+    unfold catLoop
+    have hst := catStep_tri .checked false cat (chunkAt p wa) wa ne hne (by simp; omega)
+    generalize catStep .checked cat (chunkAt p wa) wa ne = st at hst
+    obtain ⟨o, c⟩ := st
+    have hc : c = 0 := by have := hst.cost; simpa using this
+    subst hc
+    cases o with
+    | ok s =>
+      cases s with
+      | done r =>
+        refine Tri.of_ok rfl (by simp only; omega) ?_
+        intro x hx; subst hx
+        exact hst.post _ rfl
+      | next wa' ne' =>
+        have hp : wa' < 65536 ∧ ne' < 32 ∧ (Mode.checked = Mode.checked → wa + 2 ≤ wa') := hst.post _ rfl
+        have hge := hp.2.2 rfl
+        exact (ih wa' ne' (calls + 1) hp.1 hp.2.1 (by omega)).mono (by omega) (fun _ h => h)
+    | err e =>
+      refine Tri.of_err rfl (by simp only; omega) ?_
+      intro he; subst he
+      exact hst.nofuel rfl rfl
+    | panic w =>
+      refine ⟨by simp only; omega, ?_, ?_, ?_⟩
+      · intro _ h; cases h
+      · intro w' hw'; cases hw'; exact hst.panics w rfl
+      · intro _ h; cases h
+
+/-- Wrapping builds: no iteration can panic; the cost is bounded by the fuel (running out of fuel = the Rust
+    loop does not terminate). -/
+theorem catLoop_wrapping (p : Prov) (hcs : 4 ≤ p.cs) (cat : Nat) :
+    ∀ (fuel wa ne calls : Nat), ne < 32 →
+      Tri [] true (calls + fuel) (fun r => ∀ x, r = some x → x.WF)
+        (catLoop .wrapping p cat fuel wa ne calls) := by
+  intro fuel
+  induction fuel with
+  | zero =>
+    intro wa ne calls _
+    unfold catLoop
+    refine ⟨by simp, ?_, ?_, ?_⟩
+    · intro h; cases h
+    · intro _ h; cases h
+    · intro _ h; cases h
+  | succ fuel ih =>
+    intro wa ne calls hne
+    unfold catLoop
+    have hst := catStep_tri .wrapping true cat (chunkAt p wa) wa ne hne (by simp; omega)
+    generalize catStep .wrapping cat (chunkAt p wa) wa ne = st at hst
+    obtain ⟨o, c⟩ := st
+    have hc : c = 0 := by have := hst.cost; simpa using this
+    subst hc
+    cases o with
+    | ok s =>
+      cases s with
+      | done r =>
+        refine Tri.of_ok rfl (by simp only; omega) ?_
+        intro x hx; subst hx
+        exact hst.post _ rfl
+      | next wa' ne' =>
+        have hp : wa' < 65536 ∧ ne' < 32 ∧ (Mode.wrapping = Mode.checked → wa + 2 ≤ wa') := hst.post _ rfl
+        exact (ih wa' ne' (calls + 1) hp.2.1).mono (by omega) (fun _ h => h)
+    | err e =>
+      refine ⟨by simp only; omega, ?_, ?_, ?_⟩
+      · intro h; cases h
+      · intro _ h; cases h
+      · intro _ h; cases h
+    | panic w =>
+      have := hst.panics w rfl
+      simp [sites] at this
+
+/-- Provider-call bound of one category search. -/
+def catBound : Mode → Nat
+  | .checked => (65536 - Gen.Eeprom.SII_FIRST_CATEGORY_START) / 2 + 1
+  | .wrapping => catFuel
+
+/-- Whether a build mode admits a non-terminating category walk. -/
+def mayHang : Mode → Bool
+  | .checked => false
+  | .wrapping => true
+
+theorem category_tri (m : Mode) (p : Prov) (hcs : 4 ≤ p.cs) (cat : Nat) :
+    Tri (sites m) (mayHang m) (catBound m) (fun r => ∀ x, r = some x → x.WF) (category m p cat) := by
+  unfold category
+  cases m with
+  | checked =>
+    have := catLoop_checked p hcs cat catFuel Gen.Eeprom.SII_FIRST_CATEGORY_START 0 0 (by decide) (by decide)
+      (by decide)
+    exact this.mono (by simp [catBound]) (fun _ h => h)
+  | wrapping =>
+    have := catLoop_wrapping p hcs cat catFuel Gen.Eeprom.SII_FIRST_CATEGORY_START 0 0 (by decide)
+    exact this.mono (by simp [catBound]) (fun _ h => h)
+
+/-! ### items and collections -/
+
+theorem nextItem_tri {α : Type} {K : List String} (m : Mode) (hang : Bool) (p : Prov) (hcs : 2 ≤ p.cs)
+    (r : Range) (hr : r.WF) (sz : Nat) (parse : List Nat → M α) (P : α → Prop)
+    (hparse : ∀ b, b = slice p.rd r.pos sz → Tri K hang 0 P (parse b)) :
+    Tri K hang (sz + 1) (fun res => res.2.WF ∧ ∀ a, res.1 = some a → P a) (nextItem m p r sz parse) := by
+  unfold nextItem
+  have h := readExact_tri (K := K) m hang p hcs r hr sz
+  generalize Range.readExact m p r sz = x at h
+  obtain ⟨o, c⟩ := x
+  have hc : c ≤ sz + 1 := h.cost
+  cases o with
+  | ok res =>
+    have hp := h.post res rfl
+    have hb := hparse res.1 hp.1
+    have := (Tri.addCost c (Tri.bind hb (B2 := 0) (Q := fun res' : Option α × Range =>
+      res'.2.WF ∧ ∀ a, res'.1 = some a → P a) (f := fun a => ret (some a, res.2))
+      (fun a ha => Tri.ret 0 ⟨hp.2.1, fun a' h' => by cases h'; exact ha⟩)))
+    exact this.mono (by omega) (fun _ h => h)
+  | err e =>
+    cases e
+    case eof => exact Tri.of_ok rfl hc ⟨hr, fun a h' => by cases h'⟩
+    all_goals
+      show Tri K hang (sz + 1) _ (Outcome.err _, c)
+      refine ⟨hc, ?_, ?_, ?_⟩
+      · intro hh h'; exact h.nofuel hh (by cases h' <;> rfl)
+      · intro _ h'; cases h'
+      · intro _ h'; cases h'
+  | panic w =>
+    refine ⟨hc, ?_, ?_, ?_⟩
+    · intro _ h'; cases h'
+    · intro w' h'; cases h'; exact h.panics w rfl
+    · intro _ h'; cases h'
+
+/-- "Every category search is fine": never panics outside `sites m`, runs out of fuel only if `hang` allows it,
+    makes at most `CB` provider calls. Instantiated by `category_tri` (all images) and, for the partial theorem,
+    by the no-wrap hypothesis. -/
+def CatOK (m : Mode) (p : Prov) (hang : Bool) (CB : Nat) : Prop :=
+  ∀ cat, Tri (sites m) hang CB (fun r => ∀ x, r = some x → x.WF) (category m p cat)
+
+theorem catOK_all (m : Mode) (p : Prov) (hcs : 4 ≤ p.cs) : CatOK m p (mayHang m) (catBound m) :=
+  fun cat => category_tri m p hcs cat
+
+theorem items_tri (m : Mode) (p : Prov) (_hcs : 4 ≤ p.cs) {hang : Bool} {CB : Nat} (hc : CatOK m p hang CB) (cat : Nat) :
+    Tri (sites m) hang (CB) (fun r => r.WF) (items m p cat) := by
+  unfold items
+  refine (Tri.bind (hc cat) (B2 := 0) ?_).mono (by omega) (fun _ h => h)
+  intro c hcw
+  cases c with
+  | some r => exact Tri.ret 0 (hcw r rfl)
+  | none => exact (new_tri m hang 0 0).mono (Nat.le_refl _) (fun _ h => h.1)
+
+/-- The collecting loop: at most `cap + 1` items are fetched, the result never exceeds the capacity. -/
+theorem collectLoop_tri {α : Type} {K : List String} (m : Mode) (hang : Bool) (p : Prov) (hcs : 2 ≤ p.cs)
+    (sz cap capItem : Nat) (parse : List Nat → M α) (hparse : ∀ b, Tri K hang 0 (fun _ => True) (parse b)) :
+    ∀ (fuel : Nat) (r : Range) (acc : List α), r.WF → acc.length ≤ cap → cap + 1 - acc.length < fuel →
+      Tri K hang (fuel * (sz + 1)) (fun l => l.length ≤ cap)
+        (collectLoop m p sz cap capItem parse fuel r acc) := by
+  intro fuel
+  induction fuel with
+  | zero => intro r acc _ _ h; omega
+  | succ fuel ih =>
+    intro r acc hr hacc hfuel
+    unfold collectLoop
+    have hn := nextItem_tri (K := K) m hang p hcs r hr sz parse (fun _ => True) (fun b _ => hparse b)
+    refine (Tri.bind hn (B2 := fuel * (sz + 1)) ?_).mono (by rw [Nat.succ_mul]; omega) (fun _ h => h)
+    intro res hres
+    cases hres1 : res.1 with
+    | none => exact Tri.ret _ hacc
+    | some a =>
+      simp only []
+      by_cases hfull : acc.length ≥ cap
+      · rw [if_pos hfull]; exact Tri.fail _ _ (fun h => by cases h)
+      · rw [if_neg hfull]
+        exact ih res.2 (acc ++ [a]) hres.1 (by simp; omega) (by simp; omega)
+
+theorem parseSm_tri {K : List String} {hang : Bool} (b : List Nat) : Tri K hang 0 (fun _ => True) (parseSm b) := by
+  unfold parseSm; split
+  · exact Tri.ret 0 trivial
+  · exact Tri.fail 0 _ (by decide)
+
+theorem parseFmmuEx_tri {K : List String} {hang : Bool} (b : List Nat) :
+    Tri K hang 0 (fun _ => True) (parseFmmuEx b) := Tri.ret 0 trivial
+
+theorem parseFmmus_tri {K : List String} {hang : Bool} :
+    ∀ (b : List Nat), Tri K hang 0 (fun l => l.length ≤ b.length) (parseFmmus b) := by
+  intro b
+  induction b with
+  | nil => exact Tri.ret 0 (Nat.le_refl _)
+  | cons x rest ih =>
+    unfold parseFmmus
+    split
+    · refine (Tri.bind ih (B2 := 0) ?_)
+      intro us hus
+      exact Tri.ret 0 (by simp; omega)
+    · exact Tri.fail 0 _ (by decide)
+
+theorem parseMailbox_tri {K : List String} {hang : Bool} (b : List Nat) :
+    Tri K hang 0 (fun _ => True) (parseMailbox b) := by
+  unfold parseMailbox; split
+  · exact Tri.ret 0 trivial
+  · exact Tri.fail 0 _ (by decide)
+
+theorem parseGeneral_tri {K : List String} {hang : Bool} (b : List Nat) :
+    Tri K hang 0 (fun g => g.orderIdx = b.getD 2 0 ∧ g.nameIdx = b.getD 3 0) (parseGeneral b) := by
+  unfold parseGeneral; split
+  · exact Tri.ret 0 ⟨rfl, rfl⟩
+  · exact Tri.fail 0 _ (by decide)
+
+/-! ### the queries -/
+
+theorem syncManagers_tri (m : Mode) (p : Prov) (hcs : 4 ≤ p.cs) {hang : Bool} {CB : Nat} (hc : CatOK m p hang CB) :
+    Tri (sites m) hang (CB + 90) (fun l => l.length ≤ 8) (syncManagers m p) := by
+  unfold syncManagers
+  refine (Tri.bind (items_tri m p hcs hc _) (B2 := 90) ?_)
+  intro r hr
+  exact (collectLoop_tri m hang p (by omega) 8 Gen.Eeprom.CAP_SYNC_MANAGERS 0 parseSm
+    (fun b => parseSm_tri b) (Gen.Eeprom.CAP_SYNC_MANAGERS + 2) r [] hr (by decide) (by decide)).mono
+    (by decide) (fun _ h => h)
+
+theorem fmmuMappings_tri (m : Mode) (p : Prov) (hcs : 4 ≤ p.cs) {hang : Bool} {CB : Nat} (hc : CatOK m p hang CB) :
+    Tri (sites m) hang (CB + 72) (fun l => l.length ≤ 16) (fmmuMappings m p) := by
+  unfold fmmuMappings
+  refine (Tri.bind (items_tri m p hcs hc _) (B2 := 72) ?_)
+  intro r hr
+  exact (collectLoop_tri m hang p (by omega) 3 Gen.Eeprom.CAP_FMMU_EX 1 parseFmmuEx
+    (fun b => parseFmmuEx_tri b) (Gen.Eeprom.CAP_FMMU_EX + 2) r [] hr (by decide) (by decide)).mono
+    (by decide) (fun _ h => h)
+
+theorem fmmus_tri (m : Mode) (p : Prov) (hcs : 4 ≤ p.cs) {hang : Bool} {CB : Nat} (hc : CatOK m p hang CB) :
+    Tri (sites m) hang (CB + 17) (fun l => l.length ≤ 16) (fmmus m p) := by
+  unfold fmmus
+  refine (Tri.bind (hc _) (B2 := 17) ?_)
+  intro c hc
+  cases c with
+  | none => exact Tri.ret _ (by simp)
+  | some r =>
+    simp only []
+    refine (Tri.bind (read_tri m hang p (by omega) r (hc r rfl) Gen.Eeprom.FMMU_READ_BUF) (B2 := 0) ?_).mono
+      (by decide) (fun _ h => h)
+    intro res hres
+    refine (parseFmmus_tri res.1).mono (Nat.le_refl _) ?_
+    intro l hl
+    rw [hres.1, slice_length] at hl
+    have : min Gen.Eeprom.FMMU_READ_BUF (r.endp - r.pos) ≤ 16 := by
+      simp only [Gen.Eeprom.FMMU_READ_BUF]; omega
+    omega
+
+theorem stationAlias_tri (m : Mode) (hang : Bool) (p : Prov) (hcs : 2 ≤ p.cs) :
+    Tri (sites m) hang 3 (fun _ => True) (stationAlias m p) := by
+  unfold stationAlias
+  refine (Tri.bind (startAt_tri m hang _ 2) (B2 := 3) ?_).mono (by omega) (fun _ h => h)
+  intro r hr
+  refine (Tri.bind (eofToOverrun_tri (readExact_tri m hang p hcs r hr 2)) (B2 := 0) ?_)
+  intro _ _
+  exact Tri.ret 0 trivial
+
+theorem identity_tri (m : Mode) (hang : Bool) (p : Prov) (hcs : 2 ≤ p.cs) :
+    Tri (sites m) hang 17 (fun _ => True) (identity m p) := by
+  unfold identity
+  refine (Tri.bind (startAt_tri m hang _ 16) (B2 := 17) ?_).mono (by omega) (fun _ h => h)
+  intro r hr
+  refine (Tri.bind (eofToOverrun_tri (readExact_tri m hang p hcs r hr 16)) (B2 := 0) ?_)
+  intro _ _
+  exact Tri.ret 0 trivial
+
+theorem mailboxConfig_tri (m : Mode) (hang : Bool) (p : Prov) (hcs : 2 ≤ p.cs) :
+    Tri (sites m) hang 11 (fun _ => True) (mailboxConfig m p) := by
+  unfold mailboxConfig
+  refine (Tri.bind (startAt_tri m hang _ 10) (B2 := 11) ?_).mono (by omega) (fun _ h => h)
+  intro r hr
+  refine (Tri.bind (eofToOverrun_tri (readExact_tri m hang p hcs r hr 10)) (B2 := 0) ?_)
+  intro res _
+  exact parseMailbox_tri res.1
+
+theorem size_tri (m : Mode) (hang : Bool) (p : Prov) (hcs : 2 ≤ p.cs) :
+    Tri (sites m) hang 3 (fun v => v < 65536) (size m p) := by
+  unfold size
+  refine (Tri.bind (startAt_tri m hang _ 2) (B2 := 3) ?_).mono (by omega) (fun _ h => h)
+  intro r hr
+  refine (Tri.bind (eofToOverrun_tri (readExact_tri m hang p hcs r hr 2)) (B2 := 0) ?_)
+  intro res _
+  refine (Tri.bind (add16_tri m hang "size:add" (by decide) _ 1) (B2 := 0) ?_)
+  intro k _
+  exact (mul16_tri m hang "size:mul" (by decide) k 128).mono (Nat.le_refl _) (fun _ h => h.1)
+
+theorem general_tri (m : Mode) (p : Prov) (hcs : 4 ≤ p.cs) {hang : Bool} {CB : Nat} (hc : CatOK m p hang CB) (hb : ∀ a, p.rd a < 256) :
+    Tri (sites m) hang (CB + 19) (fun g => g.orderIdx < 256 ∧ g.nameIdx < 256) (general m p) := by
+  unfold general
+  refine (Tri.bind (hc _) (B2 := 19) ?_)
+  intro c hc
+  cases c with
+  | none => exact Tri.fail _ _ (by decide)
+  | some r =>
+    simp only []
+    refine (Tri.bind (eofToOverrun_tri (readExact_tri m hang p (by omega) r (hc r rfl) 18)) (B2 := 0) ?_)
+    intro res hres
+    refine (parseGeneral_tri res.1).mono (Nat.le_refl _) ?_
+    intro g hg
+    rw [hg.1, hg.2, hres.1]
+    simp only [List.getD_eq_getElem?_getD, slice_getElem?]
+    constructor <;> simp <;> exact hb _
+
+/-! ### PDOs -/
+
+theorem slice_getD_lt (rd : Nat → Nat) (hb : ∀ a, rd a < 256) (a n i : Nat) : (slice rd a n).getD i 0 < 256 := by
+  simp only [List.getD_eq_getElem?_getD, slice_getElem?]
+  split
+  · simpa using hb _
+  · simp
+
+theorem pdoEntries_tri {K : List String} (m : Mode) (hang : Bool) (p : Prov) (hcs : 2 ≤ p.cs)
+    (hb : ∀ a, p.rd a < 256) :
+    ∀ (n : Nat) (r : Range) (bits : Nat), r.WF → bits + 255 * n < 65536 →
+      Tri K hang (n * 9) (fun res => res.2.WF ∧ res.1 ≤ bits + 255 * n) (pdoEntries m p n r bits) := by
+  intro n
+  induction n with
+  | zero => intro r bits hr _; exact Tri.ret _ ⟨hr, by omega⟩
+  | succ n ih =>
+    intro r bits hr hbits
+    unfold pdoEntries
+    have hn := nextItem_tri (K := K) m hang p hcs r hr 8 parsePdoEntry (fun e => e < 256)
+      (fun b hbeq => by subst hbeq; exact Tri.ret 0 (slice_getD_lt p.rd hb _ _ _))
+    refine (Tri.bind hn (B2 := n * 9) ?_).mono (by rw [Nat.succ_mul]; omega) (fun _ h => h)
+    intro res hres
+    cases hres1 : res.1 with
+    | none => exact Tri.fail _ _ (by decide)
+    | some e =>
+      simp only []
+      have he : e < 256 := hres.2 e hres1
+      refine (Tri.bind (add16_small m "pdos:add" bits e (by omega)) (B2 := n * 9) ?_).mono (by omega) (fun _ h => h)
+      intro bits' hbits'
+      subst hbits'
+      exact (ih res.2 (bits + e) hres.1 (by omega)).mono (Nat.le_refl _) (fun _ h => ⟨h.1, by omega⟩)
+
+theorem pdoLoop_tri {K : List String} (m : Mode) (hang : Bool) (p : Prov) (hcs : 2 ≤ p.cs)
+    (hb : ∀ a, p.rd a < 256) :
+    ∀ (fuel : Nat) (r : Range) (acc : List Pdo), r.WF → acc.length ≤ Gen.Eeprom.CAP_PDOS →
+      Gen.Eeprom.CAP_PDOS + 1 - acc.length < fuel →
+      Tri K hang (fuel * 2304) (fun l => l.length ≤ Gen.Eeprom.CAP_PDOS) (pdoLoop m p fuel r acc) := by
+  intro fuel
+  induction fuel with
+  | zero => intro r acc _ _ h; omega
+  | succ fuel ih =>
+    intro r acc hr hacc hfuel
+    unfold pdoLoop
+    have hn := nextItem_tri (K := K) m hang p hcs r hr 8 parsePdo (fun pdo => pdo.numEntries < 256)
+      (fun b hbeq => by
+        subst hbeq
+        exact Tri.ret 0 (show (slice p.rd r.pos 8).getD 2 0 < 256 from slice_getD_lt p.rd hb _ _ _))
+    refine (Tri.bind hn (B2 := 2295 + fuel * 2304) ?_).mono (by rw [Nat.succ_mul]; omega) (fun _ h => h)
+    intro res hres
+    cases hres1 : res.1 with
+    | none => exact Tri.ret _ hacc
+    | some pdo =>
+      simp only []
+      have hne : pdo.numEntries < 256 := hres.2 pdo hres1
+      refine (Tri.bind ((pdoEntries_tri m hang p hcs hb pdo.numEntries res.2 0 hres.1 (by omega)).mono
+        (show pdo.numEntries * 9 ≤ 2295 by omega) (fun _ h => h)) (B2 := fuel * 2304) ?_)
+      intro er her
+      by_cases hfull : acc.length ≥ Gen.Eeprom.CAP_PDOS
+      · rw [if_pos hfull]; exact Tri.fail _ _ (by decide)
+      · rw [if_neg hfull]
+        exact ih er.2 _ her.1 (by simp; omega) (by simp; omega)
+
+theorem pdos_tri (m : Mode) (p : Prov) (hcs : 4 ≤ p.cs) {hang : Bool} {CB : Nat} (hc : CatOK m p hang CB) (hb : ∀ a, p.rd a < 256) (cat : Nat) :
+    Tri (sites m) hang (CB + 152064) (fun l => l.length ≤ 64) (pdos m p cat) := by
+  unfold pdos
+  refine (Tri.bind (items_tri m p hcs hc cat) (B2 := 152064) ?_)
+  intro r hr
+  exact (pdoLoop_tri m hang p (by omega) hb (Gen.Eeprom.CAP_PDOS + 2) r [] hr (by decide) (by decide)).mono
+    (by decide) (fun _ h => h)
+
+/-! ### strings -/
+
+theorem skipStrings_tri (m : Mode) (hang : Bool) (p : Prov) (hcs : 2 ≤ p.cs) :
+    ∀ (n : Nat) (r : Range), r.WF → Tri (sites m) hang (2 * n) (fun r' => r'.WF) (skipStrings m p n r) := by
+  intro n
+  induction n with
+  | zero => intro r hr; exact Tri.ret _ hr
+  | succ n ih =>
+    intro r hr
+    unfold skipStrings
+    refine (Tri.bind (readByte_tri m hang p hcs r hr) (B2 := 2 * n) ?_).mono (by omega) (fun _ h => h)
+    intro res hres
+    refine (Tri.bind (skip_tri m hang res.2 hres.2.1 res.1) (B2 := 2 * n) ?_).mono (by omega) (fun _ h => h)
+    intro r' hr'
+    exact ih r' hr'.1
+
+theorem findString_tri (m : Mode) (p : Prov) (hcs : 4 ≤ p.cs) {hang : Bool} {CB : Nat} (hc : CatOK m p hang CB) (N idx : Nat) :
+    Tri (sites m) hang (CB + 2 * idx + N + 5) (fun s => ∀ b, s = some b → b.length ≤ N)
+      (findString m p N idx) := by
+  unfold findString
+  by_cases h0 : idx = 0
+  · rw [if_pos h0]; exact Tri.ret _ (fun _ h => by cases h)
+  · rw [if_neg h0]
+    simp only []
+    refine (Tri.bind (hc _) (B2 := 2 * idx + N + 5) ?_).mono (by omega) (fun _ h => h)
+    intro c hc
+    cases c with
+    | none => exact Tri.ret _ (fun _ h => by cases h)
+    | some r =>
+      simp only []
+      refine (Tri.bind (readByte_tri m hang p (by omega) r (hc r rfl)) (B2 := 2 * idx + N + 3) ?_).mono
+        (by omega) (fun _ h => h)
+      intro nb hnb
+      split
+      · exact Tri.ret _ (fun _ h => by cases h)
+      · refine (Tri.bind (skipStrings_tri m hang p (by omega) (idx - 1) nb.2 hnb.2.1)
+          (B2 := N + 5) ?_).mono (by omega) (fun _ h => h)
+        intro r' hr'
+        refine (Tri.bind (readByte_tri m hang p (by omega) r' hr') (B2 := N + 1) ?_).mono
+          (by omega) (fun _ h => h)
+        intro lb hlb
+        split
+        · exact Tri.fail _ _ (fun h => by cases h)
+        · rename_i hle
+          refine (Tri.bind (eofToOverrun_tri (readExact_tri m hang p (by omega) lb.2 hlb.2.1 lb.1))
+            (B2 := 0) ?_).mono (by omega) (fun _ h => h)
+          intro res hres
+          refine Tri.ret 0 ?_
+          intro b hbq
+          cases hbq
+          unfold cleanString
+          rw [List.length_map]
+          refine Nat.le_trans (List.length_filter_le _ _) ?_
+          rw [hres.1, slice_length]; omega
+
+theorem ignoreNoCategory_tri {α : Type} {K : List String} {hang : Bool} {B : Nat} {Q : α → Prop} {x : M α}
+    (h : Tri K hang B Q x) : Tri K hang B (fun o => ∀ a, o = some a → Q a) (ignoreNoCategory x) := by
+  unfold ignoreNoCategory
+  split
+  · rename_i a ha
+    exact Tri.of_ok rfl h.cost (fun b hb => by cases hb; exact h.post a ha)
+  · exact Tri.of_ok rfl h.cost (fun b hb => by cases hb)
+  · rename_i e hne he
+    refine ⟨h.cost, ?_, ?_, ?_⟩
+    · intro hh h'; exact h.nofuel hh (by cases h'; exact he)
+    · intro _ h'; cases h'
+    · intro _ h'; cases h'
+  · rename_i w hw
+    refine ⟨h.cost, ?_, ?_, ?_⟩
+    · intro _ h'; cases h'
+    · intro w' h'; cases h'; exact h.panics w hw
+    · intro _ h'; cases h'
+
+theorem deviceName_tri (m : Mode) (p : Prov) (hcs : 4 ≤ p.cs) {hang : Bool} {CB : Nat} (hc : CatOK m p hang CB) (hb : ∀ a, p.rd a < 256) (N : Nat) :
+    Tri (sites m) hang (2 * CB + N + 534) (fun s => ∀ b, s = some b → b.length ≤ N)
+      (deviceName m p N) := by
+  unfold deviceName
+  refine (Tri.bind (ignoreNoCategory_tri (general_tri m p hcs hc hb)) (B2 := CB + N + 515) ?_).mono
+    (by omega) (fun _ h => h)
+  intro g hg
+  cases g with
+  | none => exact Tri.ret _ (fun _ h => by cases h)
+  | some g =>
+    simp only []
+    have hidx := (hg g rfl).1
+    refine (Tri.bind (ignoreNoCategory_tri (findString_tri m p hcs hc N g.orderIdx)) (B2 := 0) ?_).mono
+      (by omega) (fun _ h => h)
+    intro s hs
+    refine Tri.ret 0 ?_
+    intro b hbq
+    cases s with
+    | none => cases hbq
+    | some inner =>
+      cases inner with
+      | none => cases hbq
+      | some b2 => cases hbq; exact hs (some b) rfl b rfl
+
+theorem deviceDescription_tri (m : Mode) (p : Prov) (hcs : 4 ≤ p.cs) {hang : Bool} {CB : Nat} (hc : CatOK m p hang CB) (hb : ∀ a, p.rd a < 256) (N : Nat) :
+    Tri (sites m) hang (2 * CB + N + 534) (fun s => ∀ b, s = some b → b.length ≤ N)
+      (deviceDescription m p N) := by
+  unfold deviceDescription
+  refine (Tri.bind (general_tri m p hcs hc hb) (B2 := CB + N + 515) ?_).mono (by omega) (fun _ h => h)
+  intro g hg
+  exact (findString_tri m p hcs hc N g.nameIdx).mono (by have := hg.2; omega) (fun _ h => h)
+
 end Ec.Eeprom
